@@ -35,7 +35,7 @@ for mp in sorted(glob.glob(os.path.join(V, "seeded", "*", "meta.json"))):
     first = (c.get("first_violations") or [""])[0]
     rows.append("| %s | %s | %s; needs: %s | %s | %s | %s |" % (
         os.path.basename(os.path.dirname(mp)), m.get("property"), esc(m.get("title", ""))[:160], esc(m.get("needs", ""))[:200],
-        "yes" if c.get("detected") else "NO", "yes" if c.get("concrete_replay") else "no", esc(first)[:160]))
+        ("yes (missed by the first version, see 10.6)" if m.get("missed_by_first_version") else "yes") if c.get("detected") else "NO", "yes" if c.get("concrete_replay") else "no", esc(first)[:160]))
 import subprocess
 log = subprocess.run(["git", "-C", os.environ.get("VERIF_REPO", "/repo"), "log", "--reverse", "--format=%h\t%s", "--grep=^fix:"],
                      capture_output=True, text=True).stdout.splitlines()
